@@ -32,30 +32,74 @@ class Crate:
         self.traits = {t["path"]: t for t in self.j["traits"]}
         self.mods = {m["path"]: m for m in self.j.get("mods", [])}
 
-    # ---- inlining policy: helpers NOT named in `keep` are spliced into their callers
+    # ---- inlining policy: helpers NOT named in `keep` are spliced into their callers, and disappear as functions
     def inline_except(self, keep):
+        if getattr(self, "raw_fns", None) is None:
+            self.raw_fns = self.fns
+            self.raw_by_path = self.by_path
         self._keep = tuple(keep)
-        self._inl_cache = {}
+        self._mir_cache = {}
+        called, as_value = set(), set()
+        for f in self.raw_fns:
+            m = f.j.get("mir")
+            if not m:
+                continue
+            for blk in m["blocks"]:
+                t = blk.get("t") or {}
+                if t.get("k") == "call":
+                    if t.get("rkind") in (None, "item"):
+                        called.add(t.get("resolved") or t.get("callee"))
+                    ops = t.get("args", [])
+                else:
+                    ops = []
+                for st in blk["s"]:
+                    if st["k"] == "assign":
+                        rv = st["rv"]
+                        ops = ops + [rv[k] for k in ("a", "b") if isinstance(rv.get(k), dict)] + list(rv.get("ops", []))
+                for o in ops:
+                    c = o.get("const") if isinstance(o, dict) else None
+                    if c and c.get("fn"):
+                        as_value.add(c["fn"])
+        self.removed = {f.path for f in self.raw_fns if self._should_inline(f) and f.path in called and f.path not in as_value}
+        fns = []
+        for f in self.raw_fns:
+            if f.parent is not None:
+                continue  # closures are reached through their (inlined) parents
+            if f.path in self.removed:
+                continue
+            fns.append(InlinedFn(f))
+        out = []
+        for f in fns:
+            out.extend(f.region())
+        self.fns = out
+        self.by_path = {}
+        for f in out:
+            self.by_path.setdefault(f.path, f)
 
     def _should_inline(self, callee):
-        keep = getattr(self, "_keep", None)
-        if keep is None:
+        if callee.dk not in ("Fn", "AssocFn") or callee.j.get("impl_trait") or callee.j.get("exported"):
+            return False  # trait impl methods and the exported API are semantic anchors
+        if not callee.j.get("mir"):
             return False
-        if callee.j.get("impl_trait"):
-            return False  # trait impl methods are semantic anchors
         n = callee.name
-        return not any(n == k or callee.path.endswith("::" + k) for k in keep)
+        for k in self._keep:
+            if callable(k):
+                if k(callee):
+                    return False
+            elif n == k or callee.path.endswith("::" + k) or path_is(callee.path, k):
+                return False
+        return True
 
-    def inl(self, f):
-        if f is None or getattr(self, "_keep", None) is None or isinstance(f, InlinedFn):
-            return f
-        c = self._inl_cache
-        if f.path not in c:
-            c[f.path] = inline_fn(f, self._should_inline)
-        return c[f.path]
+    def role(self, pred):
+        """Functions of the original program (before splicing) that satisfy a role predicate."""
+        fns = getattr(self, "raw_fns", None) or self.fns
+        return [self.by_path.get(f.path, f) for f in fns if pred(f)]
 
     def fn(self, path):
-        return self.inl(self.by_path.get(path))
+        f = self.by_path.get(path)
+        if f is None and getattr(self, "raw_fns", None) is not None and path in self.raw_by_path:
+            return InlinedFn(self.raw_by_path[path])
+        return f
 
     def find_fns(self, pred):
         return [f for f in self.fns if pred(f)]
@@ -75,7 +119,7 @@ class Crate:
                     continue
             elif tr is None or not (tr == trait or tr.endswith("::" + trait)):
                 continue
-            out.append(self.inl(f))
+            out.append(f)
         return out
 
     def impls_of(self, trait_suffix):
@@ -132,6 +176,16 @@ class Fn:
     @property
     def hir(self):
         return self.j.get("hir")
+
+    def promoted_bodies(self):
+        """Promoted constant bodies of this function and of every helper spliced into it."""
+        out = list(self.j.get("promoted") or [])
+        raw = getattr(self.crate, "raw_by_path", None)
+        for p in getattr(self, "inlined", ()):
+            f = raw.get(p) if raw else None
+            if f is not None:
+                out.extend(f.j.get("promoted") or [])
+        return out
 
     def region(self):
         """This function plus (transitively) the closures it creates."""
@@ -730,7 +784,7 @@ class Sym:
         if "const" in op:
             cv = const_val(op["const"])
             if cv[0] == "promoted":
-                r = self._promoted(cv[1])
+                r = self._promoted(cv[1], op["const"].get("promoted_of"))
                 if r is not None:
                     return r
             return ("const",) + cv
@@ -786,15 +840,19 @@ class Sym:
                 return s[3][idx]
         return ("field", s, name)
 
-    def _promoted(self, idx):
-        """Symbolic value returned by promoted body #idx of this function (or of the closure's root)."""
-        key = ("promoted", idx)
+    def _promoted(self, idx, owner=None):
+        """Symbolic value returned by promoted body #idx of this function (or of the function it was inlined from)."""
+        key = ("promoted", idx, owner)
         if key in self._memo:
             return self._memo[key]
-        proms = self.fn.j.get("promoted") or []
+        of = self.fn
+        if owner and owner != self.fn.path:
+            raw = getattr(self.fn.crate, "raw_by_path", None) or self.fn.crate.by_path
+            of = raw.get(owner) or self.fn
+        proms = of.j.get("promoted") or []
         if idx >= len(proms):
             return None
-        pf = _PromotedFn(self.fn, proms[idx], idx)
+        pf = _PromotedFn(of, proms[idx], idx)
         r = Sym(pf).local(0)
         self._memo[key] = r
         return r
@@ -879,6 +937,220 @@ class Sym:
         if k == "repeat":
             return ("repeat", self.operand(rv["a"], depth, vis), rv.get("n"))
         return ("unknown", k)
+
+
+def alternatives(fn, op, at_bb, sy=None, _seen=None):
+    """Definition sites a value may come from: [(bb, sym)] or [(bb, sym, extra_gates)] (extra_gates = ((subject, variant),..)
+    for alternatives produced by an Option combinator rather than by control flow).  Copies/moves/reborrows/pointer casts of a bare local are
+    followed; a local assigned on several paths yields one alternative per assignment, located at the assigning block
+    (so the switch edges gating *that* block say under which condition the alternative is chosen).  The shape
+    `if c {f(a)} else {f(b)}` and the shape `let x = if c {a} else {b}; f(x)` give the same alternatives."""
+    sy = sy or Sym(fn)
+    body = fn.body
+    _seen = _seen if _seen is not None else set()
+    if "const" in op:
+        return [(at_bb, sy.operand(op))]
+    p = op.get("copy") or op.get("move")
+    if p is None:
+        return [(at_bb, ("unknown", "operand"))]
+    pr = [e for e in (p.get("pr") or []) if e != "*"]
+    l = p["l"]
+    if pr or l in _seen or (1 <= l <= body.argc):
+        return [(at_bb, sy.place(p))]
+    ds = body.defs().get(l, [])
+    if not ds:
+        return [(at_bb, sy.place(p))]
+    out = []
+    for d in ds:
+        bb = d[1]
+        if d[0] == "call":
+            t = d[3]
+            name = t.get("resolved") or t.get("callee") or "?"
+            if "callee" not in t:
+                out.append((bb, sy.local(l)))
+            elif path_is(name, "Option<T>::unwrap_or") and len(t["args"]) == 2:
+                # `opt.unwrap_or(d)` == match opt { Some(v) => v, None => d }: two alternatives with virtual gates
+                opt = sy.operand(t["args"][0])
+                out.append((bb, ("field", ("downcast", opt, "Some"), "0"), ((strip_sym(opt), "Some"),)))
+                for bb2, dv, *g in alternatives(fn, t["args"][1], bb, sy, _seen | {l}):
+                    out.append((bb2, dv, tuple(g[0] if g else ()) + ((strip_sym(opt), "None"),)))
+            else:
+                out.append((bb, ("call", name, tuple(sy.operand(a) for a in t["args"]), t.get("callee"))))
+            continue
+        rv = d[3]["rv"]
+        k = rv["k"]
+        if k == "use":
+            out.extend(alternatives(fn, rv["a"], bb, sy, _seen | {l}))
+        elif k in ("ref", "rawptr") and not [e for e in (rv["p"].get("pr") or []) if e != "*"]:
+            out.extend(alternatives(fn, {"copy": {"l": rv["p"]["l"]}}, bb, sy, _seen | {l}))
+        elif k == "cast" and (rv["cast"].startswith("PointerCoercion") or rv["cast"] in ("PtrToPtr", "Subtype")):
+            out.extend(alternatives(fn, rv["a"], bb, sy, _seen | {l}))
+        else:
+            out.append((bb, sy.rvalue(rv, 0, frozenset())))
+    return out
+
+
+class PredFlow:
+    """Forward, path-sensitive propagation of ONE predicate P over a body: for every block, whether P is known to hold
+    ('P'), known not to hold ('N'), unknown ('T') when control reaches it, or the block is unreachable ('B').
+
+    The predicate is introduced by the caller through two classifiers:
+      classify_switch(subject_sym, variant_or_value) -> 'P' | 'N' | None    for `match subject { Variant => .. }` edges
+      classify_bool(sym_of_bool_def)                -> (when_true, when_false) | None   for bool-valued calls/rvalues
+    Everything else is generic: bool constants assigned under a known P (e.g. `matches!`), copies, `!x`, switches on
+    such bools, merges.  So `match r {Ok(..) => A, _ => B}`, `if r.is_err() {return B}; A`, `if r != Ok(0) {..}`,
+    and `let won = helper(); if won {A} else {B}` all give block A the value 'P'."""
+
+    def __init__(self, fn, classify_switch, classify_bool=None):
+        self.fn = fn
+        self.body = body = fn.body
+        self.sy = Sym(fn)
+        self.cs = classify_switch
+        self.cb = classify_bool or (lambda s: None)
+        n = body.n
+        self.K = ["B"] * n
+        self.env_in = [None] * n
+        self.K[0] = "T"
+        self.env_in[0] = {}
+        work = [0]
+        it = 0
+        while work and it < 50000:
+            it += 1
+            b = work.pop()
+            if self.K[b] == "B":
+                continue
+            for tgt, k2, env2 in self._transfer(b):
+                if tgt is None or not isinstance(tgt, int) or tgt >= n or k2 == "B":
+                    continue
+                changed = False
+                nk = self._join(self.K[tgt], k2)
+                if nk != self.K[tgt]:
+                    self.K[tgt] = nk
+                    changed = True
+                e = self.env_in[tgt]
+                if e is None:
+                    self.env_in[tgt] = dict(env2)
+                    changed = True
+                else:
+                    for l in set(e) | set(env2):
+                        nv = self._joinv(e.get(l, ("T", "T")), env2.get(l, ("T", "T")))
+                        if e.get(l) != nv:
+                            e[l] = nv
+                            changed = True
+                if changed:
+                    work.append(tgt)
+
+    @staticmethod
+    def _join(a, b):
+        if a == "B":
+            return b
+        if b == "B":
+            return a
+        return a if a == b else "T"
+
+    def _joinv(self, a, b):
+        return (self._join(a[0], b[0]), self._join(a[1], b[1]))
+
+    @staticmethod
+    def _refine(k, w):
+        if w in ("P", "N"):
+            if k == "T":
+                return w
+            return k if k == w else "B"
+        if w == "B":
+            return "B"
+        return k
+
+    def _is_bool(self, l):
+        return self.body.locals[l]["ty"] == "bool"
+
+    def _transfer(self, b):
+        body, sy = self.body, self.sy
+        K = self.K[b]
+        env = dict(self.env_in[b] or {})
+        blk = body.blocks[b]
+        for st in blk["s"]:
+            if st["k"] != "assign" or st["p"].get("pr"):
+                continue
+            l = st["p"]["l"]
+            if not self._is_bool(l):
+                continue
+            env[l] = self._bool_rv(st["rv"], env, K)
+        t = body.term(b)
+        k = t["k"]
+        out = []
+        if k == "switch":
+            d = t["discr"]
+            dp = d.get("copy") or d.get("move")
+            per_edge = None
+            if dp is not None and not dp.get("pr") and dp["l"] in env and t.get("dty") == "bool":
+                wt, wf = env[dp["l"]]
+                per_edge = lambda v: wf if v == 0 else wt
+                vals = [a["v"] for a in t["arms"]]
+                oth = wt if vals == [0] else wf if vals == [1] else "T"
+            else:
+                subj = strip_sym(sy.operand(d))
+                if subj and subj[0] == "discr":
+                    subj = strip_sym(subj[1])
+                covered = [a.get("variant", a["v"]) for a in t["arms"]]
+                rest = [v for v in (t.get("all_variants") or []) if v not in covered]
+                per_edge = None
+                labels = {}
+                for a in t["arms"]:
+                    labels[a["bb"]] = self.cs(subj, a.get("variant", a["v"]))
+                if len(rest) == 1:
+                    oth = self.cs(subj, rest[0])
+                elif rest:
+                    cl = {self.cs(subj, r) for r in rest}
+                    oth = cl.pop() if len(cl) == 1 else None
+                else:
+                    oth = None
+                for a in t["arms"]:
+                    out.append((a["bb"], self._refine(K, labels[a["bb"]]), env))
+                out.append((t["otherwise"], self._refine(K, oth), env))
+                return out
+            for a in t["arms"]:
+                out.append((a["bb"], self._refine(K, per_edge(a["v"])), env))
+            out.append((t["otherwise"], self._refine(K, oth), env))
+            return out
+        if k == "call":
+            dest = t["dest"]
+            if not dest.get("pr") and self._is_bool(dest["l"]):
+                name = t.get("resolved") or t.get("callee") or "?"
+                csym = ("call", name, tuple(sy.operand(a) for a in t["args"]), t.get("callee"))
+                v = self.cb(csym)
+                env2 = dict(env)
+                env2[dest["l"]] = v if v else ("T", "T")
+                if t.get("target") is not None:
+                    out.append((t["target"], K, env2))
+            elif t.get("target") is not None:
+                out.append((t["target"], K, env))
+            if isinstance(t.get("unwind"), int):
+                out.append((t["unwind"], K, env))
+            return out
+        for n in body.succ(b, True):
+            out.append((n, K, env))
+        return out
+
+    def _bool_rv(self, rv, env, K):
+        k = rv["k"]
+        if k == "use":
+            a = rv["a"]
+            if "const" in a and "bool" in a["const"]:
+                return (K, "B") if a["const"]["bool"] else ("B", K)
+            p = a.get("copy") or a.get("move")
+            if p is not None and not p.get("pr") and p["l"] in env:
+                return env[p["l"]]
+        elif k == "un" and rv.get("op") == "Not":
+            p = rv["a"].get("copy") or rv["a"].get("move")
+            if p is not None and not p.get("pr") and p["l"] in env:
+                wt, wf = env[p["l"]]
+                return (wf, wt)
+        v = self.cb(self.sy.rvalue(rv, 0, frozenset()))
+        return v if v else ("T", "T")
+
+    def at(self, bb):
+        return self.K[bb]
 
 
 class _PromotedFn:
@@ -1009,13 +1281,13 @@ def sym_str(s, depth=0):
 
 
 # --------------------------------------------------------------------------------------------
-# MIR inliner: makes "extract a private helper" / "inline a private helper" refactorings invisible
+# MIR inliner: the rules see the program *after* splicing every non-exported, non-trait helper function that the
+# rule set does not name into its callers.  "Extract a private helper", "inline a private helper" and "rename a
+# private helper the rules never mention" are therefore invisible to the rules.
 # --------------------------------------------------------------------------------------------
-import copy
-
-
 def _shift_place(p, loff):
-    q = {"l": p["l"] + loff}
+    q = dict(p)
+    q["l"] = p["l"] + loff
     pr = p.get("pr")
     if pr:
         npr = []
@@ -1030,9 +1302,9 @@ def _shift_place(p, loff):
 
 def _shift_op(o, loff):
     if "copy" in o:
-        return {"copy": _shift_place(o["copy"], loff)}
+        return dict(o, copy=_shift_place(o["copy"], loff))
     if "move" in o:
-        return {"move": _shift_place(o["move"], loff)}
+        return dict(o, move=_shift_place(o["move"], loff))
     return o
 
 
@@ -1048,66 +1320,43 @@ def _shift_rv(rv, loff):
     return rv
 
 
-def _shift_target(t, boff):
-    return t + boff if isinstance(t, int) else t
-
-
-class InlinedFn(Fn):
-    """A function whose calls to same-crate helper functions have been spliced in (up to `depth` levels)."""
-
-    def __init__(self, base, mir, extra_children):
-        self.crate = base.crate
-        self.j = dict(base.j)
-        self.j["mir"] = mir
-        self.path = base.path
-        self.dk = base.dk
-        self.name = base.name
-        self.children = list(base.children) + extra_children
-        self.parent = base.parent
-        self._body = None
-        self.base = base
-
-
-def inline_fn(fn, should_inline, depth=4, max_blocks=1500):
-    """Returns an InlinedFn for `fn`.  `should_inline(callee_fn)` decides per callee."""
-    crate = fn.crate
+def inline_mir(crate, fn, depth=4, max_blocks=3000):
+    """Returns (mir, [raw closure Fns of inlined callees], [paths inlined]) for raw function `fn`."""
     m = fn.j["mir"]
     locals_ = list(m["locals"])
-    blocks = [dict(b) for b in m["blocks"]]
+    blocks = [b for b in m["blocks"]]
     extra_children = []
-    # worklist of (block index, stack of paths, depth)
+    inlined = []
     work = [(i, (fn.path,), 0) for i in range(len(blocks))]
-    n_inlined = 0
     while work:
         bi, stack, d = work.pop()
         if len(blocks) > max_blocks:
             break
         b = blocks[bi]
         t = b.get("t")
-        if not t or t.get("k") != "call" or d >= depth:
+        if not t or t.get("k") != "call" or d >= depth or "callee" not in t:
             continue
         if t.get("rkind") not in (None, "item"):
             continue
-        cal = crate.by_path.get(t.get("resolved") or "") or crate.by_path.get(t.get("callee") or "")
-        if cal is None or cal.dk not in ("Fn", "AssocFn") or cal.path in stack or not should_inline(cal):
+        cal = crate.raw_by_path.get(t.get("resolved") or "") or crate.raw_by_path.get(t.get("callee") or "")
+        if cal is None or cal.path in stack or not crate._should_inline(cal):
             continue
-        cm = cal.j["mir"]
-        if len(cm["blocks"]) > 400:
+        cm = cal.j.get("mir")
+        if not cm or len(cm["blocks"]) > 600 or cm["argc"] != len(t["args"]):
             continue
         loff = len(locals_)
-        boff = len(blocks) + 1  # +1: landing block first
         landing = len(blocks)
-        for l in cm["locals"]:
-            locals_.append(dict(l))
-        # landing block: dest = move ret; goto target
-        ret_local = loff
-        land_stmts = [{"k": "assign", "p": t["dest"], "rv": {"k": "use", "a": {"move": {"l": ret_local}}}, "ln": t.get("ln"), "exp": t.get("exp")}]
+        boff = landing + 1
+        locals_.extend(cm["locals"])
+        ln = {"ln": t.get("ln"), "exp": t.get("exp")}
+        land_stmts = [dict(ln, k="assign", p=t["dest"], rv={"k": "use", "a": {"move": {"l": loff}}}, inl_ret=cal.path)]
         if t.get("target") is not None:
-            land_term = {"k": "goto", "target": t["target"], "ln": t.get("ln")}
+            land_term = dict(ln, k="goto", target=t["target"])
         else:
-            land_term = {"k": "unreachable", "ln": t.get("ln")}
+            land_term = dict(ln, k="unreachable")
         blocks.append({"s": land_stmts, "t": land_term, "cleanup": b.get("cleanup")})
-        # callee blocks
+        cu = t.get("unwind")
+        closure_names = {}
         for cb in cm["blocks"]:
             ns = []
             for s in cb["s"]:
@@ -1115,50 +1364,72 @@ def inline_fn(fn, should_inline, depth=4, max_blocks=1500):
                 if s["k"] == "assign":
                     s2["p"] = _shift_place(s["p"], loff)
                     s2["rv"] = _shift_rv(s["rv"], loff)
+                    if s2["rv"].get("closure"):
+                        # one copy of the callee's closure per splice, so captures resolve through *this* caller
+                        nm = f"{s2['rv']['closure']}@{fn.path}#{len(inlined)}"
+                        closure_names[s2["rv"]["closure"]] = nm
+                        s2["rv"]["closure"] = nm
                 elif s["k"] == "setdiscr":
                     s2["p"] = _shift_place(s["p"], loff)
                 elif s["k"] in ("live", "dead"):
                     s2["l"] = s["l"] + loff
                 ns.append(s2)
             ct = cb.get("t") or {"k": "none"}
-            nt = dict(ct)
             k = ct.get("k")
             if k == "return":
-                nt = {"k": "goto", "target": landing, "ln": ct.get("ln")}
+                nt = {"k": "goto", "target": landing, "ln": ct.get("ln"), "inl_return": True}
             elif k == "resume":
-                uw = t.get("unwind")
-                nt = {"k": "goto", "target": uw, "ln": ct.get("ln")} if isinstance(uw, int) else dict(ct)
+                nt = {"k": "goto", "target": cu, "ln": ct.get("ln")} if isinstance(cu, int) else dict(ct)
             else:
+                nt = dict(ct)
                 for key in ("target", "otherwise", "drop"):
-                    if key in nt:
-                        nt[key] = _shift_target(nt[key], boff)
+                    if isinstance(nt.get(key), int):
+                        nt[key] = nt[key] + boff
                 if isinstance(nt.get("unwind"), int):
                     nt["unwind"] = nt["unwind"] + boff
-                elif "unwind" in nt and nt.get("unwind") == "continue" and isinstance(t.get("unwind"), int):
-                    nt["unwind"] = t["unwind"]
+                elif nt.get("unwind") == "continue" and isinstance(cu, int):
+                    nt["unwind"] = cu
                 if "arms" in nt:
                     nt["arms"] = [dict(a, bb=a["bb"] + boff) for a in nt["arms"]]
-                if "discr" in nt:
-                    nt["discr"] = _shift_op(nt["discr"], loff)
-                if "cond" in nt:
-                    nt["cond"] = _shift_op(nt["cond"], loff)
+                for key in ("discr", "cond", "callee_op"):
+                    if isinstance(nt.get(key), dict):
+                        nt[key] = _shift_op(nt[key], loff)
                 if "args" in nt:
                     nt["args"] = [_shift_op(o, loff) for o in nt["args"]]
-                if "dest" in nt:
-                    nt["dest"] = _shift_place(nt["dest"], loff)
-                if "p" in nt and isinstance(nt["p"], dict):
-                    nt["p"] = _shift_place(nt["p"], loff)
-                if "callee_op" in nt:
-                    nt["callee_op"] = _shift_op(nt["callee_op"], loff)
+                for key in ("dest", "p"):
+                    if isinstance(nt.get(key), dict):
+                        nt[key] = _shift_place(nt[key], loff)
             blocks.append({"s": ns, "t": nt, "cleanup": cb.get("cleanup") or b.get("cleanup")})
-        # rewrite the call block: bind arguments, jump into the callee
         new_stmts = list(b["s"])
         for i, a in enumerate(t["args"]):
-            new_stmts.append({"k": "assign", "p": {"l": loff + 1 + i}, "rv": {"k": "use", "a": a}, "ln": t.get("ln"), "exp": t.get("exp")})
-        blocks[bi] = {"s": new_stmts, "t": {"k": "goto", "target": boff, "ln": t.get("ln")}, "cleanup": b.get("cleanup")}
-        n_inlined += 1
-        extra_children.extend(cal.children)
+            new_stmts.append(dict(ln, k="assign", p={"l": loff + 1 + i}, rv={"k": "use", "a": a}, inl_arg=cal.path))
+        blocks[bi] = {"s": new_stmts, "t": dict(ln, k="goto", target=boff, inl_call=cal.path), "cleanup": b.get("cleanup")}
+        inlined.append(cal.path)
+        extra_children.extend((ch, closure_names.get(ch.path, ch.path)) for ch in cal.children)
         for j in range(boff, len(blocks)):
             work.append((j, stack + (cal.path,), d + 1))
-    mir = {"argc": m["argc"], "locals": locals_, "dbg": m.get("dbg", []), "blocks": blocks, "inlined": n_inlined}
-    return InlinedFn(fn, mir, extra_children)
+    mir = {"argc": m["argc"], "locals": locals_, "blocks": blocks}
+    return mir, extra_children, inlined
+
+
+class InlinedFn(Fn):
+    """View of a function in the program obtained by splicing helper functions into their callers."""
+
+    def __init__(self, base, parent=None, path=None):
+        crate = base.crate
+        c = crate._mir_cache
+        if base.path not in c:
+            c[base.path] = inline_mir(crate, base)
+        mir, extra, inlined = c[base.path]
+        self.crate = crate
+        self.j = dict(base.j)
+        self.j["mir"] = mir
+        self.path = path or base.path
+        self.j["path"] = self.path
+        self.dk = base.dk
+        self.name = base.name
+        self.parent = parent
+        self._body = None
+        self.base = base
+        self.inlined = inlined
+        self.children = [InlinedFn(ch, self) for ch in base.children] + [InlinedFn(ch, self, nm) for ch, nm in extra]
